@@ -12,6 +12,7 @@ on the implementation by running after unrelated allocations, earlier runs and f
 import ClvmProofs.Lemmas.Interp.Repr
 import ClvmProofs.Lemmas.Interp.ReprMachine
 import ClvmProofs.Lemmas.Interp.ReprChia
+import ClvmProofs.Lemmas.Interp.ReprHistory
 
 namespace Clvm.Props.C03
 open Clvm Clvm.Interp
@@ -87,6 +88,35 @@ theorem chia_eval_retag_partial (cfg : Cfg) (F : Flags)
 /-- the cryptographic operators satisfy the operator-level shape -/
 theorem crypto_op_repr (name : String) (f : OpFn) (h : cryptoExtra name = some f) : OpRepr true f :=
   cryptoExtra_repr name f h
+
+/-- **Heap history, operators.** Called with two different sets of allocator counters, an operator
+gives the same cost and the same value (tags included), or the same error — unless one of the two
+calls stops at an allocator limit (`OutOfMemory`, `TooManyAtoms`, `TooManyPairs`). -/
+theorem op_history (cfg : Cfg) (name : String) (f : OpFn)
+    (h : coreOpByName cfg name = some f ∨ cryptoExtra name = some f) : OpCtrIndep f :=
+  h.elim (coreOps_ctr cfg name f) (cryptoExtra_ctr name f)
+
+theorem unknown_op_history (op : Bytes) : OpCtrIndep (opUnknown op) := opUnknown_ctr op
+
+/-- **Heap history, whole runs.** ChiaDialect with every operator and every flag set: two runs of
+the same program and environment from different allocator counters (an allocator with any past)
+that both answer give the same cost and the same value, or the same error, unless one of them stops
+at an allocator limit. -/
+theorem run_history (cfg : Cfg) (F : Flags) (fuel : Nat) (c0 c0' : Ctr) (program env : Val) (maxCost : Nat)
+    (r r' : OpRes)
+    (hr : runProgram cfg (chiaDialect cfg cryptoExtra F) fuel c0 program env maxCost = some r)
+    (hr' : runProgram cfg (chiaDialect cfg cryptoExtra F) fuel c0' program env maxCost = some r') :
+    CtrIndepRes r r' :=
+  chia_run_history cfg F fuel c0 c0' program env maxCost r r' hr hr'
+
+/-- … read out when neither run stops at a limit: equal cost and value, or equal error -/
+theorem run_history_no_limit (cfg : Cfg) (F : Flags) (fuel : Nat) (c0 c0' : Ctr) (program env : Val)
+    (maxCost : Nat) (r r' : OpRes)
+    (hr : runProgram cfg (chiaDialect cfg cryptoExtra F) fuel c0 program env maxCost = some r)
+    (hr' : runProgram cfg (chiaDialect cfg cryptoExtra F) fuel c0' program env maxCost = some r')
+    (hl : ∀ e, r = .error e → e.isLimit = false) (hl' : ∀ e, r' = .error e → e.isLimit = false) :
+    (∃ k v c c', r = .ok (k, v, c) ∧ r' = .ok (k, v, c')) ∨ (∃ e, r = .error e ∧ r' = .error e) :=
+  (chia_run_history cfg F fuel c0 c0' program env maxCost r r' hr hr').no_limit hl hl'
 
 /-- the full statement (all programs, `heapToo = false`), kept visible -/
 def Statement : Prop := EvalRetagStatement
